@@ -407,7 +407,7 @@ def parse_file(path):
             span = (mm.group(1), int(mm.group(2)))
         # terminator?
         is_term = bool(re.match(r"^(goto|switchInt|return|resume|unreachable|drop\(|assert\(|coroutine_drop|unwind)", text)
-                       or " -> [" in text or re.search(r"\) -> unwind", text) or "= yield(" in text)
+                       or " -> [" in text or re.search(r"\) -> (unwind|bb\d+;)", text) or "= yield(" in text)
         if is_term:
             cur.term = parse_terminator(text)
             cur.term_span = span
